@@ -505,6 +505,15 @@ func C10(r *chk.Run) {
 		}
 		os.Exit(0)
 	}
+	if !thorough {
+		// quick: the position-exhaustive family first - it is the one that must not be starved on a loaded machine
+		for i, f := range fams {
+			if strings.HasPrefix(f.name, "positional/") {
+				fams = append([]fam{f}, append(append([]fam{}, fams[:i]...), fams[i+1:]...)...)
+				break
+			}
+		}
+	}
 	// fair shares: a family may use the time left divided by the work left (in mutants), but at least
 	// its equal share, so that a slow family cannot starve the ones after it; what a family does not
 	// use goes to the rest
